@@ -216,7 +216,7 @@ def check_typed_results(P, ctx):
     # copy: alloc(type_of(self)) then assign
     f = P.fn('copy')
     g = P.cfg(f)
-    N = util.Norm(P, f, keep={'alloc', 'type_of', 'assign'})
+    N = util.Norm(P, f, expand_locals=True, keep={'alloc', 'type_of', 'assign'})
     rets = [n for n in g.live() if n['kind'] == 'ret']
     want_e = ir.canon(('call', ('func', 'assign'), (('call', ('func', 'alloc'), (('call', ('func', 'type_of'), (('param', 'self', 0),)),)), ('param', 'self', 0))))
     ok = any(N.canon(n['expr']) == want_e for n in rets)
